@@ -216,7 +216,8 @@ class Gen:
                     hands.append(h)
                 self.ret_fut = True
                 out.append({"op": "return", "e": {"handle": h} if self.r.random() < 0.7 else {"tuple": [{"handle": h}, self.retexpr(vals)]}})
-            elif r < c["p_result"]:
+            elif r < c["p_result"] and not c["p_ret_fut"]:
+                # (not in the returns-future class: result(v) asserts that v is not a future, and there v may be one)
                 out.append({"op": "result", "e": self.retexpr(vals)})
             else:
                 out.append({"op": "return", "e": self.retexpr(vals)})
